@@ -39,6 +39,7 @@ import (
 	hostv2 "github.com/cosmos/ibc-go/v11/modules/core/24-host/v2"
 	ibctm "github.com/cosmos/ibc-go/v11/modules/light-clients/07-tendermint"
 	ibctesting "github.com/cosmos/ibc-go/v11/testing"
+	ibcmock "github.com/cosmos/ibc-go/v11/testing/mock"
 	mockv2 "github.com/cosmos/ibc-go/v11/testing/mock/v2"
 
 	"verif/harness/core"
@@ -263,11 +264,23 @@ func (s *sm) Init(wk *ksim.Worker) *ksim.World {
 	var id ids
 	id.C0 = createClient(w, 0, 1, signers[sgCreator])
 	id.CAux = createClient(w, 0, 1, signers[sgCreator])
+	// Identifiers are deliberately asymmetric: two unrelated clients, one unrelated connection and one unrelated
+	// channel are created on B first. The path is then A 07-tendermint-0 <-> B 07-tendermint-2, connection-0 <->
+	// connection-1, channel-0 <-> channel-1, and B's client id names a DIFFERENT existing client on A (the "other"
+	// client, whose allow list is {other-client-relayer}); a handler that looks a configuration up under the
+	// counterparty's identifier therefore gets a wrong answer in both directions.
+	dummyB := createClient(w, 1, 0, ksim.Signer)
+	createClient(w, 1, 0, ksim.Signer)
 	id.CB = createClient(w, 1, 0, ksim.Signer)
+	must("unrelated connection on B", w.Tx(1, connectiontypes.NewMsgConnectionOpenInit(dummyB, "07-tendermint-9", ksim.Prefix, ibctesting.DefaultOpenInitVersion, 0, ksim.Signer)))
 	l := &ksim.Link{A: 0, B: 1, ClientA: id.C0, ClientB: id.CB}
 	w.SetupConnection(l, 0)
+	must("unrelated channel on B", w.Tx(1, channeltypes.NewMsgChannelOpenInit(ibcmock.PortID, ibcmock.Version, channeltypes.UNORDERED, []string{l.ConnB}, ibcmock.PortID, ksim.Signer)))
 	ch := w.SetupChannel(l, transfertypes.PortID, transfertypes.PortID, transfertypes.V1, channeltypes.UNORDERED)
 	id.Chan, id.ChanB = ch.ChanA, ch.ChanB
+	if id.C0 == id.CB || l.ConnA == l.ConnB || id.Chan == id.ChanB {
+		panic(fmt.Sprintf("c46 fixture: identifiers are not asymmetric: clients %s/%s connections %s/%s channels %s/%s", id.C0, id.CB, l.ConnA, l.ConnB, id.Chan, id.ChanB))
+	}
 	// the auxiliary client learns one more height and is then frozen by a conflicting header
 	w.Commit(1, ksim.BlockStep)
 	must("update aux", w.Tx(0, updateMsg(w, id.CAux, 1, signers[sgStranger])))
@@ -275,6 +288,9 @@ func (s *sm) Init(wk *ksim.Worker) *ksim.World {
 	// the substitute / "other" client is created later (higher height) by another creator and has its own allow list
 	w.Commit(1, ksim.BlockStep)
 	id.C1 = createClient(w, 0, 1, signers[sgOtherCreator])
+	if id.C1 != id.CB {
+		panic(fmt.Sprintf("c46 fixture: B's client id %s should name the other client on A (%s)", id.CB, id.C1))
+	}
 	must("config C1", w.Tx(0, clientv2types.NewMsgUpdateClientConfig(id.C1, signers[sgOtherCreator], clientv2types.NewConfig(signers[sgRelayer2]))))
 	// chain B is fully configured for v2 traffic with the client under test
 	must("register on B", w.Tx(1, clientv2types.NewMsgRegisterCounterparty(id.CB, prefix, id.C0, ksim.Signer)))
@@ -740,6 +756,7 @@ func run(c *core.C) {
 	c.Set("operations", len(matrix)-1)
 	c.Set("signer_classes", signerNames[:])
 	c.Set("alphabet", "configuration steps through the real handlers: allow-list(k) = MsgUpdateClientConfig by the authority | allowed-clients(k) = 02-client MsgUpdateParams | delete-creator | register (MsgRegisterCounterparty by the creator) | traffic (three v2 packets brought in flight: one to receive, one to acknowledge, one to time out on chain A) | freeze (conflicting signed header); in every reachable state all operations x all signer classes are delivered to forks")
+	c.Assume("identifiers of the two chains are asymmetric (A 07-tendermint-0 <-> B 07-tendermint-2, connection-0 <-> connection-1, channel-0 <-> channel-1) and B's client id names a different client on A with a different allow list")
 	c.Assume("wasm MsgStoreCode / MsgRemoveChecksum / MsgMigrateContract live in the separate 08-wasm Go module with its own application; they are out of reach of this harness and are not covered")
 	c.Assume("authority = gov module account as wired by testing/simapp; consensus-params authority override (sdk.ValidateAuthority) is unset")
 	c.Assume("one message per transaction delivered as baseapp does minus ante handlers; a failed handler's writes are discarded by the transaction branch, so 'rejected => stores byte-identical' is checked on the committed result of the transaction")
